@@ -234,7 +234,8 @@ def ensure_built(imports: str) -> None:
     mods = {"Model.Val"}
     for stmt in re.findall(r"From\s+V\s+Require\s+(?:Import|Export)\s+(.*?)\.(?:\s|$)", imports + " ", flags=re.S):
         mods.update(x for x in stmt.split() if re.fullmatch(r"[A-Za-z_][\w.]*", x))
-    todo = sorted(m for m in mods if m not in _BUILT and not (COQ / (m.replace(".", "/") + ".vo")).exists())
+    # always through make: an existing .vo may be stale (a dependency outside the cone of Props/<pid>.vo was edited)
+    todo = sorted(m for m in mods if m not in _BUILT)
     _BUILT.update(mods)
     if todo:
         sh([str(COQ / "mk.sh"), *[m.replace(".", "/") + ".vo" for m in todo]], timeout=1800)
